@@ -306,6 +306,20 @@ package bus
 //@   loop 1:
 //@     invariant r != nil && box != nil
 
+// The fan-out goroutine of client.Subscribe owns handler id until it has seen its queue closed
+// (the endpoint frees the slot before closing the queue, and slots are reused): it may give the
+// handler back only on the cancel path, never after the queue was closed under it — otherwise it
+// would remove whichever subscriber has been given the slot since.
+//@ func (c *client) Subscribe$3(id int)
+//@   tags C13
+//@   opt recv_nonnil yes
+//@   requires c != nil && queue != nil && !queue.chseen && c.endpoint != nil && events != nil && !events.chclosed && !events.chowned && allocated(events) && allocated(queue) && ref(queue) != ref(abort)
+//@   modifies everything
+//@   call RemoveHandler#1: assert[C13] !queue.chseen
+//@   call RemoveHandler#1: assert[C13] arg0 == id
+//@   loop 1:
+//@     invariant c != nil && queue != nil && !queue.chseen && c.endpoint != nil && events != nil && !events.chclosed && !events.chowned && ref(queue) != ref(abort)
+
 // Replies and errors carry the request's id, service, object and action.
 //@ func (c *channel) Send(msg *net.Message) (err error)
 //@   tags C04
